@@ -216,8 +216,15 @@ func FillOperands(t *rapid.T, c *Case) {
 		c.X = gen.Finite(t, ctx, "x")
 		c.Str = Spell(t, c.X)
 	case "pow":
-		c.X = gen.Finite(t, ctx, "x")
-		c.Y = gen.Finite(t, ctx, "y")
+		c.X, c.Y = gen.PowArgs(t, ctx)
+	case "exp":
+		c.X = gen.ExpArg(t, ctx, "x")
+	case "ln", "log10":
+		c.X = gen.LogArg(t, ctx, 40, "x")
+	case "sqrt":
+		c.X = gen.RootArg(t, ctx, 2, "x")
+	case "cbrt":
+		c.X = gen.RootArg(t, ctx, 3, "x")
 	default: // unary
 		c.X = gen.Finite(t, ctx, "x")
 		if gen.Pick(t, 30, "zerox") == 0 {
@@ -419,7 +426,11 @@ func Reference(c Case) Expect {
 	case "mul":
 		value(ref.Mul(c.X, c.Y))
 	case "quo":
-		if c.Y.IsZero() || ctx.P == 0 {
+		if c.Y.IsZero() {
+			divZero(&e, c)
+			return e
+		}
+		if ctx.P == 0 {
 			return e
 		}
 		value(ref.Quo(c.X, c.Y))
@@ -444,7 +455,11 @@ func Reference(c Case) Expect {
 	case "reduce":
 		value(ref.FromDec(c.X))
 	case "quointeger", "rem":
-		if c.Y.IsZero() || ctx.P == 0 {
+		if c.Y.IsZero() {
+			divZero(&e, c)
+			return e
+		}
+		if ctx.P == 0 {
 			return e
 		}
 		q, r, ee := ref.DivInt(c.X, c.Y)
@@ -501,7 +516,11 @@ func Reference(c Case) Expect {
 		}
 		e.ExpSet, e.ExpWant = true, 0
 	case "sqrt":
-		if c.X.Neg && !c.X.IsZero() || ctx.P == 0 {
+		if c.X.Neg && !c.X.IsZero() {
+			e.Defined, e.NaN, e.Cond = true, true, apd.InvalidOperation
+			return e
+		}
+		if ctx.P == 0 {
 			return e
 		}
 		e.Defined = true
@@ -517,4 +536,18 @@ func Reference(c Case) Expect {
 		e.Cond = e.R.Flags()
 	}
 	return e
+}
+
+// divZero fills the reference outcome of a division by a zero divisor.
+func divZero(e *Expect, c Case) {
+	e.Defined = true
+	switch {
+	case c.X.IsZero():
+		e.NaN, e.Cond = true, apd.DivisionUndefined
+	case c.Op == "rem":
+		e.NaN, e.Cond = true, apd.InvalidOperation
+	default:
+		e.R = ref.Result{Form: apd.Infinite, Neg: c.X.Neg != c.Y.Neg}
+		e.Cond = apd.DivisionByZero
+	}
 }
